@@ -262,11 +262,15 @@ def _reverse_unflatten(self, args, kwargs, out):
     if dim0 < 0:
         dim0 = out.ndim + dim0
     dim1 = dim0 + len(unflattened_size) - 1
-    if not out.is_locked:
-        unflattened = self.flatten(dim0, dim1)
-        return out.update(unflattened, inplace=False)
+    if dim1 == dim0:
+        # an unflattened_size of length 1 split nothing: self has the shape of out already,
+        # and flatten() refuses start_dim == end_dim
+        unflattened = self
     else:
         unflattened = self.flatten(dim0, dim1)
+    if not out.is_locked:
+        return out.update(unflattened, inplace=False)
+    else:
         return out.update_(unflattened)
 
 
